@@ -351,6 +351,8 @@ func (s *State) Abs() *Abs {
 			}
 		case rel == "config":
 			a.Cl = ParseConfig(data)
+		case strings.HasSuffix(rel, ".tmp"):
+			// a temporary file left behind by an interrupted atomic write; no loader looks at it
 		case strings.HasPrefix(rel, "objects/"):
 			name := strings.ReplaceAll(rel[len("objects/"):], "/", "")
 			a.ObjFiles[name] = data
@@ -479,6 +481,9 @@ func (a *Abs) Fsck() []Problem {
 	var probs []Problem
 	cls := ""
 	add := func(f string, args ...interface{}) { probs = append(probs, Problem{cls, fmt.Sprintf(f, args...)}) }
+	if !a.S.Dirs["root/.goit"] {
+		return nil // no repository here (e.g. after a refused or failed init)
+	}
 	cls = "head-names-branch"
 	if !a.HasHead {
 		add("HEAD: missing")
